@@ -232,13 +232,52 @@ fn main() {
     std::panic::set_hook(Box::new(|_| {}));
     let out = std::io::stdout();
     let mut out = std::io::BufWriter::new(out.lock());
+    // Every request runs in a process of its own (`plabs one <request>`): a crash or an escaping
+    // panic of the real pool is then an observation of that request, not the end of the lab.
+    let isolated = |req: &str| -> String {
+        let child = std::process::Command::new(std::env::current_exe().unwrap())
+            .arg("one")
+            .arg(req)
+            .stdin(std::process::Stdio::null())
+            .stderr(std::process::Stdio::null())
+            .output();
+        match child {
+            Ok(o) => {
+                let text = String::from_utf8_lossy(&o.stdout).to_string();
+                if let Some(l) = text.lines().find(|l| l.contains('\t')) {
+                    // the child's own line (also the watchdog's `hang` line)
+                    l.split_once('\t').unwrap().1.to_string()
+                } else {
+                    use std::os::unix::process::ExitStatusExt;
+                    match (o.status.signal(), o.status.code()) {
+                        (Some(sig), _) => format!("crash signal={sig}"),
+                        (_, Some(c)) => format!("crash exit={c}"),
+                        _ => "crash unknown".to_string(),
+                    }
+                }
+            }
+            Err(e) => format!("crash spawn={e}"),
+        }
+    };
     match args.get(1).map(|s| s.as_str()) {
+        Some("one") => {
+            let req = &args[2];
+            let obs = exec(req);
+            writeln!(out, "{req}\t{obs}").unwrap();
+            out.flush().unwrap();
+        }
         Some("gen") => {
             let mut rng = rng::Rng::new(args[3].parse().unwrap(), &args[2]);
             for req in gen(&mut rng, args[4].parse().unwrap()) {
-                let obs = exec(&req);
+                let obs = isolated(&req);
                 writeln!(out, "{req}\t{obs}").unwrap();
                 out.flush().unwrap();
+            }
+        }
+        Some("reqs") => {
+            let mut rng = rng::Rng::new(args[3].parse().unwrap(), &args[2]);
+            for req in gen(&mut rng, args[4].parse().unwrap()) {
+                writeln!(out, "{req}").unwrap();
             }
         }
         Some("exec") => {
@@ -248,7 +287,7 @@ fn main() {
                 if req.trim().is_empty() {
                     continue;
                 }
-                let obs = exec(&req);
+                let obs = isolated(&req);
                 writeln!(out, "{req}\t{obs}").unwrap();
                 out.flush().unwrap();
             }
